@@ -20,6 +20,7 @@ def table(c):
     try:
         path, changed, t = gen_tables.generate()
     except TranslatorError as e:
+        gen_tables.ensure_exists(str(e))
         c.violation('table-translator-failed', {'kind': 'tie', 'layer': 'tools/gen_tables.py', 'error': str(e)}, no_input=True)
         return None
     c.extra['unit_table'] = {'definitions': len(t['defs']), 'names': len(t['all_names']), 'prefix_side_names': len(t['prefixes']),
@@ -186,11 +187,11 @@ From FendV Require Import Units.Generated.UnitTable.
 Definition mark (n : N) := n.
 Eval vm_compute in (mark 1, filter (fun n => negb (chk_resolves n)) (table_names ++ gen_currencies)).
 Eval vm_compute in (mark 2, filter (fun n => negb (chk_model_agrees n)) all_names).
-Eval vm_compute in (mark 3, map (fun d => fst (fst d)) (filter (fun d => negb (chk_sing_plur d || mem_str (fst (fst d)) known_sing_plur)) (t_defs the_tables))).
+Eval vm_compute in (mark 3, map (fun d => fst (fst d)) (filter (fun d => negb (chk_sing_plur d)) (t_defs the_tables))).
 Eval vm_compute in (mark 4, filter (fun n => negb (chk_first_definition n)) all_names).
 Eval vm_compute in (mark 5, filter (fun n => negb (chk_lookup_first n)) all_names).
 Eval vm_compute in (mark 6, map (fun d => fst (fst d)) (filter (fun d => negb (chk_short_long d)) (t_defs the_tables))).
-Eval vm_compute in (mark 7, filter (fun n => negb (chk_family n || mem_str n known_family)) table_names).
+Eval vm_compute in (mark 7, filter (fun n => negb (chk_family n)) table_names).
 Eval vm_compute in (mark 8, map fst (filter (fun r => negb (chk_row q_fast r)) gen_prefix_status)).
 Eval vm_compute in (mark 9, map (fun d => fst (fst d)) (filter (fun d => negb (chk_prefixable_reachable d || mem_str (fst (fst d)) known_unreachable)) (t_defs the_tables))).
 '''
@@ -228,3 +229,27 @@ def diagnose(script=DIAG, names=DIAG_NAMES, tag='c11'):
         if ents:
             res[names.get(k, str(k))] = ents
     return res
+
+
+# ---------------------------------------------------------------------------
+# regression witnesses of repaired findings (corpus/<Cxx>/regression_witnesses.json)
+
+def regression_witnesses(c):
+    """evaluates every stored witness of a repaired finding; a wrong answer is a VIOLATION"""
+    import json
+    path = os.path.join(vlib.ROOT, 'corpus', c.prop, 'regression_witnesses.json')
+    if not os.path.exists(path):
+        return
+    cases = json.load(open(path)).get('cases', [])
+    outs = c.impl('units', [sx([Sym('eval'), CTX_DEFAULT, k['input']]) for k in cases])
+    for k, o in zip(cases, outs):
+        c.note_case('witness:' + k['input'], True, 'regression-witness')
+        p = try_parse(o)
+        got = (p[0][0].decode(), p[0][1].decode('utf-8', 'replace')) if isinstance(p, list) and p and isinstance(p[0], list) and len(p[0]) == 2 else ('crash', o[:200])
+        if k['want'].startswith('ERR'):
+            good = got[0] == 'e' and k['want'][4:] in got[1]
+        else:
+            good = got == ('o', k['want'])
+        if not good:
+            c.violation('regression-of-repaired-finding', {'kind': 'impl-vs-spec', 'input': k['input'], 'want': k['want'], 'impl': got,
+                                                           'repaired_by': k.get('fixed_by')})
